@@ -64,6 +64,23 @@ def split_sections(line):
     # derived keys: the commit index alone; (id, matched) of every tracked peer alone
     if res.get("log"):
         res["log.commit"] = (res["log"][0],)
+    # derived key: what every message says about commitment: (type, to, commit, commit_term)
+    mc = []
+    for cls in ("msgs.vote", "msgs.repl", "msgs.resp", "msgs.other"):
+        for body in res.get(cls, ()):
+            b = body.split()
+            try:
+                k = 6                                    # type to from term log_term index | entries…
+                n_e = int(b[k]); k += 1
+                for _ in range(n_e):
+                    k += 3                               # type term index
+                    k += 1 + int(b[k])                   # data
+                    k += 1 + int(b[k])                   # context
+                mc.append((b[0], b[1], b[k], b[k + 1]))
+            except (IndexError, ValueError):
+                mc.append(tuple(b))
+    if mc:
+        res["msgs.commit"] = tuple(sorted(mc))
     pr = res.get("progress")
     if pr:
         try:
@@ -106,7 +123,7 @@ def cache_key(tier, seed):
     for p in (C.VH, C.DRIVER):
         st = os.stat(p)
         h.update(("%s:%d:%d" % (p, st.st_mtime_ns, st.st_size)).encode())
-    h.update(("v17:%s:%s" % (tier, seed)).encode())
+    h.update(("v19:%s:%s" % (tier, seed)).encode())
     return h.hexdigest()[:16]
 
 
